@@ -30,6 +30,7 @@ import (
 	"github.com/anz-bank/sysl/pkg/printer"
 	"github.com/anz-bank/sysl/pkg/sysl"
 	"github.com/anz-bank/sysl/pkg/syslutil"
+	"github.com/anz-bank/sysl/pkg/verifhook"
 )
 
 type Settings struct {
@@ -280,6 +281,7 @@ func (p *Parser) parseSpecs(specs []srcInput, listener *TreeShapeListener) (*sys
 		v := &specs[i]
 		out := &syslInputs[i]
 		g.Go(func() error {
+			verifhook.Yield("convert", v.src.filename)
 			out.src = v.src
 
 			// Import Sysl Proto
@@ -383,6 +385,7 @@ func (p *Parser) collectSpecs(
 	retrieved.mutex.Lock()
 	if fi, has := retrieved.l[filenameIndex]; has {
 		retrieved.mutex.Unlock()
+		verifhook.Note("claimed", "seen "+source.filename)
 
 		if !p.NoDifferentVersionCheck {
 			appname1 := strings.ReplaceAll(fi.src.src.appname, " :: ", "::")
@@ -428,6 +431,7 @@ func (p *Parser) collectSpecs(
 	fi.src.src = source
 	retrieved.l[filenameIndex] = fi
 	retrieved.mutex.Unlock()
+	verifhook.Note("claimed", "new "+source.filename)
 
 	content, hash, branch, err := reader.ReadHashBranch(ctx, source.filename)
 	if err != nil {
@@ -459,6 +463,7 @@ func (p *Parser) collectSpecs(
 	for _, c := range children {
 		c := c
 		g.Go(func() error {
+			verifhook.Yield("claim", source.filename+" -> "+c.filename+" as "+c.pkg+"."+c.appname+" "+c.mode)
 			return p.collectSpecs(ctx, c, reader, retrieved, maxImportDepth, currentImportDepth+1)
 		})
 	}
